@@ -832,14 +832,14 @@ Lemma RemoveForward_effect b k : inv b ->
 Proof.
   intros Hi. destruct (RemoveForward_spec b k Hi) as [Hi' Habs].
   set (b' := RemoveForward b k) in *.
-  assert (HP : forall k0 v0, abs b' !! k0 = Some v0 <-> k0 <> k /\ abs b !! k0 = Some v0)
+  assert (HP : forall k0 v0, abs b' !! k0 = Some v0 <-> k <> k0 /\ abs b !! k0 = Some v0)
     by (intros; rewrite Habs; apply lookup_delete_Some).
   pose proof (injective_abs b Hi) as Hinj.
   split.
   - intros k'. apply (effect_forward b' _ k' _ HP).
-    destruct (decide (k' = k)) as [->|Hk]; [right; split; [reflexivity|]; intros v0 [? _]; contradiction|].
+    destruct (decide (k' = k)) as [->|Hk]; [right; split; [reflexivity|]; intros v0 [Hne _]; congruence|].
     destruct (abs b !! k') as [v1|] eqn:E1.
-    + left. exists v1. split; [apply GetForward_char; left; eauto|]. auto.
+    + left. exists v1. split; [apply GetForward_char; left; eauto|]. split; [congruence|reflexivity].
     + right. split; [apply GetForward_char; right; auto|]. intros v0 [_ ?]. congruence.
   - intros v'. apply (effect_reverse b' _ v' _ Hi' HP).
     destruct (decide (GetReverse b v' = (k, true))) as [Ek|Ek].
@@ -847,7 +847,7 @@ Proof.
       apply (GetReverse_char b v' _ Hi) in Ek as [(k1 & [= <-] & E1)|[? _]]; [|discriminate].
       apply Hk0. eapply Hinj; eauto.
     + destruct (proj1 (GetReverse_char b v' _ Hi) eq_refl) as [(k1 & Er & E1)|[Er Hno]].
-      * left. exists k1. split; [exact Er|]. split; [|exact E1]. intros ->. apply Ek. exact Er.
+      * left. exists k1. split; [exact Er|]. split; [|exact E1]. intros E'. subst k1. apply Ek. exact Er.
       * right. split; [exact Er|]. intros k0 [_ E0']. apply (Hno k0 E0').
 Qed.
 
@@ -911,7 +911,7 @@ Proof.
   unfold get_handle, set_handle in Es. destruct (st !! h) as [b|] eqn:Hb; cbn in Es; [|discriminate].
   destruct (Add b k v) as [b'|] eqn:Ea; cbn in Es; [|discriminate]. injection Es as <-.
   assert (Hi : inv b) by (eapply Forall_lookup_1; eauto).
-  exists st, b, b'. split; [exact E1|]. split; [reflexivity|]. split; [reflexivity|].
+  exists st, b, b'. split; [exact E1|]. split; [exact Hb|]. split; [reflexivity|].
   split; [apply list_lookup_insert; eapply lookup_lt_Some; eauto|].
   apply Add_effect; assumption.
 Qed.
@@ -925,7 +925,7 @@ Proof.
   intros E. destruct (run_snoc _ _ _ E) as (st & E1 & Hinv & Es). cbn in Es.
   unfold get_handle, set_handle in Es. destruct (st !! h) as [b|] eqn:Hb; cbn in Es; [|discriminate].
   injection Es as <-. assert (Hi : inv b) by (eapply Forall_lookup_1; eauto).
-  exists st, b, (RemoveForward b k). split; [exact E1|]. split; [reflexivity|]. split; [reflexivity|].
+  exists st, b, (RemoveForward b k). split; [exact E1|]. split; [exact Hb|]. split; [reflexivity|].
   split; [apply list_lookup_insert; eapply lookup_lt_Some; eauto|].
   apply RemoveForward_effect; assumption.
 Qed.
@@ -939,7 +939,7 @@ Proof.
   intros E. destruct (run_snoc _ _ _ E) as (st & E1 & Hinv & Es). cbn in Es.
   unfold get_handle, set_handle in Es. destruct (st !! h) as [b|] eqn:Hb; cbn in Es; [|discriminate].
   injection Es as <-. assert (Hi : inv b) by (eapply Forall_lookup_1; eauto).
-  exists st, b, (RemoveReverse b v). split; [exact E1|]. split; [reflexivity|]. split; [reflexivity|].
+  exists st, b, (RemoveReverse b v). split; [exact E1|]. split; [exact Hb|]. split; [reflexivity|].
   split; [apply list_lookup_insert; eapply lookup_lt_Some; eauto|].
   apply RemoveReverse_effect; assumption.
 Qed.
@@ -952,7 +952,7 @@ Proof.
   intros E. destruct (run_snoc _ _ _ E) as (st & E1 & Hinv & Es). cbn in Es.
   unfold get_handle, set_handle in Es. destruct (st !! h) as [b|] eqn:Hb; cbn in Es; [|discriminate].
   injection Es as <-. assert (Hi : inv b) by (eapply Forall_lookup_1; eauto).
-  exists st, b, (Clear b). split; [exact E1|]. split; [reflexivity|]. split; [reflexivity|].
+  exists st, b, (Clear b). split; [exact E1|]. split; [exact Hb|]. split; [reflexivity|].
   split; [apply list_lookup_insert; eapply lookup_lt_Some; eauto|].
   destruct (Clear_effect b Hi) as [Hf Hr]. split; [exact Hf|]. split; [exact Hr|].
   rewrite Len_spec. destruct (Clear_spec b Hi) as [_ ->]. rewrite map_size_empty. reflexivity.
